@@ -852,9 +852,9 @@ pub fn build(w: &str, c: &Ctx) -> Result<Workload, String> {
         }
         "W3" => {
             let mut create = m(
-                "create a room with two groups, rights and a user",
+                "create a room with three groups: rights and a user, rights only, a user only",
                 1,
-                "mutate { sys.Room { admin:[{verif_key:$adm}] authorisations:[{ name:\"ga\" rights:[{entity:\"ns.P\" mutate_self:true mutate_all:true},{entity:\"ns.Q\" mutate_self:true mutate_all:false}] users:[{verif_key:$b}] },{ name:\"gb\" rights:[{entity:\"*\" mutate_self:true mutate_all:false}] }] } }",
+                "mutate { sys.Room { admin:[{verif_key:$adm}] authorisations:[{ name:\"ga\" rights:[{entity:\"ns.P\" mutate_self:true mutate_all:true},{entity:\"ns.Q\" mutate_self:true mutate_all:false}] },{ name:\"gb\" rights:[{entity:\"*\" mutate_self:true mutate_all:false}] },{ name:\"gc\" users:[{verif_key:$b}] }] } }",
                 vec![pr("adm", b64(&c.key_vk())), pr("b", c.b_key.clone())],
             );
             create.capture = Some("r3");
